@@ -9,6 +9,7 @@ from ..core import call_attr, calls_in, dotted, kwarg, norm, slice_parts, text, 
 from . import c09
 
 EXPLANATION = [
+    'C07.cid-alloc: a local channel identifier is allocated by scanning the very table the channel is then inserted into (keyed by own CIDs), whatever identifiers the peer chose (same rule as C09.cid-alloc).',
     'C07.credit-guard: every data frame sent by LeCreditBasedChannel.process_output '
     'is dominated by `credits > 0` and each loop iteration that sends a frame '
     'lowers `credits` exactly once.',
@@ -258,7 +259,13 @@ def ctor_slots(ctx):
         R.check(good, rule, f'{LE}.connect | request fields', 'request announces our psm/source_cid/mtu/mps and the credits we grant (peer_credits)', 'connection request fields do not match the channel attributes', p.loc(con))
 
 
+def cid_alloc(ctx):
+    from . import c09
+    c09.cid_alloc(ctx, rule='C07.cid-alloc')
+
+
 RULES = [
+    ('C07.cid-alloc', cid_alloc),
     ('C07.credit-guard', credit_guard),
     ('C07.bounds', bounds),
     ('C07.credit-return', credit_return),
